@@ -158,15 +158,16 @@ def check(mod, tier):
   disagreements = []
   failing = []
   for case, o, (line, (agree, holds, msg)) in zip(cases, obs, res):
-    label = mod.classify(case, o) if hasattr(mod, 'classify') else 'case'
+    crashed = isinstance(o, dict) and 'code_exception' in o
+    label = 'code-exception' if crashed else (mod.classify(case, o) if hasattr(mod, 'classify') else 'case')
     hist[label] += 1
-    key = mod.nontrivial_key(case, o) if hasattr(mod, 'nontrivial_key') else line
+    key = None if crashed else (mod.nontrivial_key(case, o) if hasattr(mod, 'nontrivial_key') else line)
     if key is not None:
       nontrivial.add(key if isinstance(key, (str, int, tuple)) else json.dumps(key, sort_keys=True))
     if not holds:
       matched = None
       for e in known:
-        if mod.known_match(e, case, o, msg):
+        if not crashed and mod.known_match(e, case, o, msg):
           matched = e
           break
       if matched is not None:
